@@ -17,7 +17,8 @@ PI_D = Decimal("3.14159265358979323846264338327950288419716939937510582097494")
 C_D = Decimal(299792458)
 IMPORTS = ("From SpdVerif Require Import Base.Rx Base.GridOps Gen.Grid Model.SpectrumSetup Gen.Spectrum Model.Spectrum Proofs.C07_support Proofs.C07_counts Proofs.C07_tac.\n"
            "Import ListNotations.\n")
-IN_WINDOW_TAGS = ("center", "center0", "rand_in")
+IN_WINDOW_TAGS = ("center", "center0", "rand_in", "wide_in", "below_thr", "thr=alpha", "thr=alpha+", "thr=alpha-",
+                  "hist_pump_diag", "hist_centre", "hist_rand")
 
 
 def fh(s):
@@ -120,6 +121,7 @@ def oracle_sup(ctx, o):
            "threshold": fh(o["thr"]), "alpha": fh(o.get("alpha")),
            "values": {f: ([fh(x) for x in o[f]] if isinstance(o.get(f), list) else fh(o.get(f))) for f in ZERO_FIELDS if o.get(f) is not None}}
     if o.get("panic") or o.get("panic_spectrum"):
+        ctx.count("sup:panic:" + o["tag"].split("|")[0])
         if o["tag"] in IN_WINDOW_TAGS or exact_outside(o):
             ctx.violation("S5", f"spectrum evaluation panicked at ({fh(o['ws'])!r}, {fh(o['wi'])!r}): {o.get('panic') or o.get('panic_spectrum')}",
                           {"kind": "sup_panic", "setup": o["setup"], "tag": o["tag"]}, rep)
@@ -141,7 +143,17 @@ def oracle_sup(ctx, o):
         exp = [alpha * pm[0], alpha * pm[1]]
 
         def same(x, y):
-            return (x != x and y != y) or x == y or abs(x - y) <= 4e-16 * max(abs(x), abs(y))
+            # the phase-matching value comes from a SECOND call; simpson2d / the 1-D rules are rayon parallel sums whose
+            # association depends on scheduling, so only agreement to 1e-12 is required.  NaN never counts as agreement.
+            if x != x or y != y:
+                return False
+            return x == y or abs(x - y) <= 1e-12 * max(abs(x), abs(y))
+        if any(v != v for v in raw + exp):
+            ctx.count("sup:nan_product:" + o["tag"].split("|")[0])
+            if o["tag"] in IN_WINDOW_TAGS:
+                ctx.violation("S5", f"NaN in jsa_raw / phase matching inside the transmission window at ({fh(o['ws'])!r}, {fh(o['wi'])!r})",
+                              {"kind": "finite", "setup": o["setup"]}, rep)
+            return
         if not (same(raw[0], exp[0]) and same(raw[1], exp[1])):
             rep.update({"phasematch": pm, "expected": exp})
             ctx.violation("S5", f"jsa_raw {raw} is not envelope {alpha!r} x phasematching {pm} on the support",
@@ -213,6 +225,36 @@ def oracle_scale(ctx, o):
         bad.append(f"HOM visibility changes: {fh(B['hom_vis'])!r} -> {fh(S['hom_vis'])!r}")
     if fh(S["hom_dt"]) != fh(B["hom_dt"]):
         bad.append("HOM time delay depends on power/deff")
+    rb, rs_ = B.get("ranges"), S.get("ranges")
+    if rb and rs_:
+        def arr(v):
+            return [fh(x) for x in v]
+        for nm in rb["lin"]:
+            xb, xs = arr(rb["lin"][nm]), arr(rs_["lin"][nm])
+            if len(xb) != len(xs) or not xb or any(rel(y, k * x) > 1e-12 for x, y in zip(xb, xs)):
+                i = next((i for i, (x, y) in enumerate(zip(xb, xs)) if rel(y, k * x) > 1e-12), 0)
+                bad.append(f"{nm}[{i}]: {xs[i] if xs else None!r} vs {k!r} x {xb[i] if xb else None!r}")
+        for nm in rb["amp"]:
+            xb, xs = arr(rb["amp"][nm]), arr(rs_["amp"][nm])
+            if len(xb) != len(xs) or not xb or any(rel(y, c * x) > 1e-12 for x, y in zip(xb, xs)):
+                bad.append(f"{nm} does not scale with sqrt(a)|b|")
+        for nm in rb["inv"]:
+            xb, xs = arr(rb["inv"][nm]), arr(rs_["inv"][nm])
+            if "hom" in nm or ("two_source" in nm and "rates" in nm):
+                # rates are 1/2 - (interference term): compare the interference term relatively (a rate close to 1/2 hides it)
+                def differs(x, y):
+                    return not (finite(x) and finite(y)) or abs(x - y) > 1e-6 * max(abs(0.5 - x), abs(0.5 - y)) + 1e-13
+            elif "two_source" in nm:
+                def differs(x, y):
+                    return not (finite(x) and finite(y)) or abs(x - y) > 1e-6 * max(abs(x), abs(y)) + 1e-12
+            else:
+                def differs(x, y):
+                    return not (finite(x) and finite(y)) or abs(x - y) > 1e-10 * max(abs(x), abs(y))
+            if len(xb) != len(xs) or not xb or any(differs(x, y) for x, y in zip(xb, xs)):
+                i = next((i for i, (x, y) in enumerate(zip(xb, xs)) if differs(x, y)), 0)
+                bad.append(f"{nm}[{i}] changes: {xb[i] if xb else None!r} -> {xs[i] if xs else None!r}")
+        rep["ranges_base"] = {g: {nm: [fh(x) for x in v][:6] for nm, v in rb[g].items()} for g in rb}
+        rep["ranges_scaled"] = {g: {nm: [fh(x) for x in v][:6] for nm, v in rs_[g].items()} for g in rs_}
     if bad:
         ctx.violation("S5", f"scaling power by {a:g} and deff by {b:g} ({o['setup']}): " + "; ".join(bad[:4]),
                       {"kind": "scaling", "setup": o["setup"], "fields": sorted({x.split(':')[0].split(' ')[0] for x in bad})}, rep)
@@ -344,9 +386,15 @@ def correspondence(ctx, obs, quick):
     return res
 
 
+def real_found(ctx):
+    """a concrete failing input that is NOT one of the listed known findings (those must not mask a broken obligation)"""
+    fnd = load_findings()
+    return any(v["found_input"] and not match_finding(v, fnd, ctx.prop) for v in ctx.violations)
+
+
 def run(ctx):
     binp = build_harness(ctx)
-    msgs, spans = regen(ctx, ["spectrum", "efficiencies", "pm_integrand", "grid"])
+    msgs, spans = regen(ctx, ["spectrum", "efficiencies", "pm_integrand", "grid", "hom", "schmidt"])
     keys = ("phasematch", "jsa", "utils", "math", "beam", "spdc::efficiencies")
     ctx.cov["translated_spans"] = {k: v for k, v in spans.items() if k.startswith(keys)}
     for m in msgs:
@@ -365,12 +413,12 @@ def run(ctx):
         correspondence(ctx, obs, quick)
     else:
         ctx.note("correspondence cases skipped: generated model / case tactics did not compile")
-    if (not proved or any(not v["found_input"] for v in ctx.violations)) and not any(v["found_input"] for v in ctx.violations):
+    if (not proved or any(not v["found_input"] for v in ctx.violations)) and not real_found(ctx):
         ctx.log("S5 deep search for a failing input (proof obligations or correspondence are broken)")
         for k in range(2):
             obs2 = run_harness(ctx, binp, ["c07", ctx.seed + 1000 + k, 24, 1])
             oracle(ctx, obs2)
-            if any(v["found_input"] for v in ctx.violations):
+            if real_found(ctx):
                 break
     ctx.cov["rule"] = ("5 phase-matched setups (KTP/BBO/LiNbO3, types 0/1/2, poled and not, collinear and not) plus 4 edit histories of each that break energy conservation at the centre (signal / idler / pump retuned alone); two-source HOM with the sources scaled independently; per setup: envelope at centre, "
                        "± half span, random and far detunings for 5 bandwidths; spectrum functions at in-support points, at every box "
@@ -378,7 +426,7 @@ def run(ctx):
                        "bandwidth/power/deff; (power, deff) scaled over six decades; distinct = distinct (setup, input bits)")
     ctx.cov["clauses"] = {
         "intensities/rates proportional to power x deff^2": "proved (generated normalisation; raw amplitudes syntactically independent: frame scan; rates = generated rendering of counts.rs with the generated correction factor and cell area dws*dwi) + Rust-vs-Rust 1e-12 over six decades; grids with unequal axis spacings",
-        "efficiencies / normalised spectra / Schmidt / HOM independent of power, deff": "proved on the generated/hand models (SVD, HOM and two-source HOM sums as list models; two sources scaled independently) + Rust-vs-Rust",
+        "efficiencies / normalised spectra / Schmidt / HOM independent of power, deff": "proved over the GENERATED definitions (Gen/Spectrum.v amplitude composed with Gen/HomSrc.v, Gen/SchmidtSrc.v via grpF's models; two sources scaled independently; normalised amplitude and intensities) + Rust-vs-Rust on every *_range accessor, sweep, hom_rate(_series), two-source (self and independent)",
         "envelope 1 at centre, 1/2 at +- half FWHM span": "proved (exact, and only there) + interval correspondence",
         "jsa_raw = envelope x phasematching": "proved + bitwise on Rust",
         "exact zero off support (box, threshold)": "proved, box proved equal to the property's (strictness included) + exact-zero comparison incl. 1-ulp boundary points",
